@@ -258,7 +258,7 @@ func scenarios() []scenario {
 	}
 	{ // K: cursor on 3x2
 		var ops []op
-		for _, p := range [][2]int{{0, 0}, {2, 1}, {3, 0}, {0, 2}, {-1, -1}, {1, 1}} {
+		for _, p := range [][2]int{{0, 0}, {2, 1}, {3, 0}, {0, 2}, {-1, -1}, {1, 1}, {-3, 0}, {1, -2}} { // (off-screen on one axis only, too)
 			ops = append(ops, op{kind: "cursor", x: p[0], y: p[1]})
 		}
 		ops = append(ops, op{kind: "hidecursor"})
@@ -802,6 +802,9 @@ func c09Scenarios() []scenario {
 		{kind: "set", x: 2, r: '世', comb: []rune{0x0301}}, {kind: "set", x: 1, r: 'x', st: 10}, {kind: "set", x: 0, r: 'y', st: 11}, {kind: "set", x: 2, r: 'z', st: 12},
 		{kind: "set", x: 3, r: '%', st: 13}, {kind: "setstyle", st: 11}, {kind: "fill", r: 0x85, st: 10}, {kind: "cstyle", cs: 9, col: tcell.NewRGBColor(255, 255, 255)}, {kind: "cstyle", cs: 1, col: tcell.Color(1000) | tcell.ColorValid},
 		{kind: "cursor", x: 1, y: 0}, show, {kind: "sync"},
+		// cursor requests off the screen, on one axis or both, by a little or by a lot: hidden,
+		// never addressed ("no ... negative numbers")
+		{kind: "cursor", x: -3, y: 0}, {kind: "cursor", x: 1, y: -2}, {kind: "cursor", x: -1, y: -1}, {kind: "cursor", x: 4, y: 0}, {kind: "cursor", x: -1000, y: 1000},
 	}
 	return []scenario{{"X-extreme-values-4x1", 4, 1, ops, 3, 4, nil}}
 }
